@@ -21,7 +21,7 @@ from typing import Any, Awaitable, Callable
 import anyio
 from anyio import CancelScope
 
-from .loops import cycles_now
+from .loops import cycles_now, ticker_of
 
 
 class Harness:
@@ -36,8 +36,14 @@ class Harness:
         self.aborted: str | None = None
         self.abort_marks: list[Callable[[], None]] = []
         hooks = getattr(self.loop, "abort_hooks", None)
+        self.ticker = None
         if hooks is not None:
             hooks.append(self._on_abort)
+        else:
+            # uvloop: cycle ticker + logical stuck rule instead of VLoop's Deadlock
+            self.ticker = ticker_of(self.loop)
+            if self.ticker is not None:
+                self.ticker.abort_hooks.append(self._on_abort)
 
     def _on_abort(self, reason: str) -> None:
         self.aborted = reason
@@ -65,6 +71,9 @@ class Harness:
     def ev(self, actor: Any, kind: str, *payload: Any) -> int:
         self.seq += 1
         self.log.append((self.seq, self.cyc(), actor, kind, *payload))
+        if self.ticker is not None:
+            self.ticker.activity()
+
         return self.seq
 
     def signature(self) -> list:
